@@ -147,7 +147,12 @@ inline std::string outcome_json(const Outcome &o, uint64_t seed, const Plan *pla
   return s.str();
 }
 
+inline void blas_single_thread(char **argv) { if (!getenv("OPENBLAS_NUM_THREADS")) { setenv("OPENBLAS_NUM_THREADS", "1", 1); execv("/proc/self/exe", argv); } }
 inline int harness_main(Harness &h, int argc, char **argv) {
+  // the BLAS/LAPACK archives of this image are OpenBLAS (pthread build): its worker pool must not exist inside a simulated process.
+  // OpenBLAS reads OPENBLAS_NUM_THREADS in a constructor, i.e. before main, so the process re-executes itself once with it set.
+  blas_single_thread(argv);
+
   std::string mode = argc > 1 ? argv[1] : "";
   std::map<std::string, std::string> a;
   for (int i = 2; i + 1 < argc; i += 2) a[argv[i]] = argv[i + 1];
